@@ -277,10 +277,10 @@ func c01Run(w *kernel.Worker, j *c01Job, rep *kernel.Report) (*c01Result, error)
 		rep.Transition(1)
 		flushed = i + 1
 		last := i == len(j.Events)-1
-		qs := []Q{{Index: idx, Text: "*", Start: T0 - 1, End: T0 + (1 << 33), Size: 1000}}
+		qs := []Q{{Index: idx, Text: "*", Start: T0 - 1, End: T0 + (1 << 33), Size: 1000, Nulls: true}} // includeNulls: empty strings are rendered (""), absent columns as null
 		if last && len(j.Events) <= 8 {
 			for k := 0; k < flushed; k++ {
-				qs = append(qs, Q{Index: idx, Text: fmt.Sprintf(`id="e%d"`, k), Start: T0 - 1, End: T0 + (1 << 33), Size: 1000})
+				qs = append(qs, Q{Index: idx, Text: fmt.Sprintf(`id="e%d"`, k), Start: T0 - 1, End: T0 + (1 << 33), Size: 1000, Nulls: true})
 			}
 		}
 		rs, err := runQueries(w, qs)
